@@ -33,7 +33,7 @@ CONTRACTS["optimization:constrain_sum_bounded"] = dict(
     requires=["s > 0", "all(lb[i] >= 0 and lb[i] <= ub[i] and x[i] >= 0 for i in range(n))"],
     raises={"FailedConstraint": "not RES['success']", "AssertionError": True},
     ensures=[
-        ("C14.within_bounds", "all(result[i] >= lb[i] and result[i] <= ub[i] for i in range(n))"),
+        ("C14+C15.within_bounds", "all(result[i] >= lb[i] and result[i] <= ub[i] for i in range(n))"),
         ("C14.sum_meets_total_within_code_tolerance", "abs(sum(result[i] for i in range(n)) - s) <= 1e-08 + 1e-05 * s"),
         ("C14.feasible_proposal_returned_unchanged", "implies(sum(x[i] for i in range(n)) == s and all(x[i] >= lb[i] and x[i] <= ub[i] for i in range(n)), all(result[i] == x[i] for i in range(n)))"),
         ("C14.exact_total_without_slsqp", "implies(sum(x[i] for i in range(n)) != 0 and all(x[i] * s >= lb[i] * sum(x[j] for j in range(n)) and x[i] * s <= ub[i] * sum(x[j] for j in range(n)) for i in range(n)), sum(result[i] for i in range(n)) == s)"),
